@@ -53,8 +53,8 @@ def parse_args(argv):
 
 def check_tree_under_test():
     import penman
-    if not penman.__file__.startswith('/repo/'):
-        raise RuntimeError(f'penman imported from {penman.__file__}, not /repo')
+    if not penman.__file__.startswith(core.REPO + '/'):
+        raise RuntimeError(f'penman imported from {penman.__file__}, not {core.REPO}')
 
 
 def child_main(a):
@@ -99,12 +99,22 @@ def run_cases(mod, ctx):
             ctx.fail(f'{kind}:oracle-crash', detail=tb[-1200:],
                      mech=type(e).__name__ + ':' + _where(e))
     ctx.current = None
+    law = getattr(mod, 'PYTEST_LAW', None)
+    if law and ctx.shard == 0:
+        # extra workload: the repository's own tests with the always-on laws attached
+        from pmon.checks import _pytest
+        ctx.current = ['pytest', {}]
+        try:
+            _pytest.run(ctx, law)
+        except Exception as e:
+            ctx.count('pytest_plugin_failed')
+        ctx.current = None
 
 
 def _where(e):
     tb = traceback.extract_tb(e.__traceback__)
     for fr in reversed(tb):
-        if fr.filename.startswith('/repo/'):
+        if fr.filename.startswith(core.REPO + '/'):
             return f'{os.path.basename(fr.filename)}:{fr.name}'
     fr = tb[-1]
     return f'{os.path.basename(fr.filename)}:{fr.name}'
@@ -129,7 +139,11 @@ def replay_main(a):
     kind, payload = v['case']
     ctx.current = [kind, payload]
     try:
-        mod.oracle(ctx, kind, payload)
+        if kind == 'pytest':
+            from pmon.checks import _pytest
+            _pytest.run(ctx, getattr(mod, 'PYTEST_LAW', v.get('property')))
+        else:
+            mod.oracle(ctx, kind, payload)
     except monitors.StepBudget as e:
         ctx.fail(f'{kind}:step-budget', detail=str(e))
     except Exception as e:
